@@ -34,7 +34,10 @@ static __attribute__((noinline)) void snap(uint8_t *dst, const volatile uint8_t 
 {
     for (size_t i = 0; i < n; ++i) dst[i] = src[i];
 }
-#define LIVE(e, obj) snap((e)->live, (const volatile uint8_t *)(obj), (e)->size)
+/* LIVE is invoked immediately before the release call.  Any randomness the release itself draws (a release may legitimately
+ * leave fresh random bytes behind) must be the same in both runs, so the tape is re-seeded here with a public value: what is
+ * still compared is whether the bytes left behind depend on what the object held. */
+#define LIVE(e, obj) do { snap((e)->live, (const volatile uint8_t *)(obj), (e)->size); tape_set(TAPE_RANDOM, 0x5eed0f7e1ea5eULL); } while (0)
 
 static size_t len(env_t *e, size_t max) { return rng_below(&e->shape, (uint32_t)max + 1); }
 static uint8_t pubbuf[256];
